@@ -85,6 +85,19 @@ pub trait Suite: RandomizedCiphersuite {
     fn w_aggregate(pkg: &frost::SigningPackage<Self>, shares: &BTreeMap<Identifier<Self>, frost::round2::SignatureShare<Self>>, pk: &frost::keys::PublicKeyPackage<Self>) -> Result<frost::Signature<Self>, frost::Error<Self>>;
     fn w_aggregate_custom(pkg: &frost::SigningPackage<Self>, shares: &BTreeMap<Identifier<Self>, frost::round2::SignatureShare<Self>>, pk: &frost::keys::PublicKeyPackage<Self>, mode: frost::CheaterDetection) -> Result<frost::Signature<Self>, frost::Error<Self>>;
     fn w_reconstruct(kps: &[frost::keys::KeyPackage<Self>]) -> Result<frost::SigningKey<Self>, frost::Error<Self>>;
+    /// Re-randomised entry points: only frost-ristretto255 compiles wrappers of its own (`rerandomized` module); the other
+    /// suites use frost-rerandomized's generic functions.
+    fn w_rr_sign(pkg: &frost::SigningPackage<Self>, nonces: &frost::round1::SigningNonces<Self>, kp: &frost::keys::KeyPackage<Self>, seed: &[u8]) -> Result<frost::round2::SignatureShare<Self>, frost::Error<Self>> {
+        frost_rerandomized::sign_with_randomizer_seed(pkg, nonces, kp, seed)
+    }
+    fn w_rr_aggregate(
+        pkg: &frost::SigningPackage<Self>,
+        shares: &BTreeMap<Identifier<Self>, frost::round2::SignatureShare<Self>>,
+        pk: &frost::keys::PublicKeyPackage<Self>,
+        params: &frost_rerandomized::RandomizedParams<Self>,
+    ) -> Result<frost::Signature<Self>, frost::Error<Self>> {
+        frost_rerandomized::aggregate(pkg, shares, pk, params)
+    }
 }
 
 /// `aggregate_custom` apart: the Taproot crate has no wrapper of its own for it (frost-core's is used there).
@@ -162,6 +175,17 @@ macro_rules! suite_wrappers {
 impl Suite for frost_ristretto255::Ristretto255Sha512 {
     const NAME: &'static str = "ristretto255";
     suite_wrappers!(frost_ristretto255, frost_ristretto255::Ristretto255Sha512);
+    fn w_rr_sign(pkg: &frost::SigningPackage<Self>, nonces: &frost::round1::SigningNonces<Self>, kp: &frost::keys::KeyPackage<Self>, seed: &[u8]) -> Result<frost::round2::SignatureShare<Self>, frost::Error<Self>> {
+        frost_ristretto255::rerandomized::sign_with_randomizer_seed(pkg, nonces, kp, seed)
+    }
+    fn w_rr_aggregate(
+        pkg: &frost::SigningPackage<Self>,
+        shares: &BTreeMap<Identifier<Self>, frost::round2::SignatureShare<Self>>,
+        pk: &frost::keys::PublicKeyPackage<Self>,
+        params: &frost_rerandomized::RandomizedParams<Self>,
+    ) -> Result<frost::Signature<Self>, frost::Error<Self>> {
+        frost_ristretto255::rerandomized::aggregate(pkg, shares, pk, params)
+    }
     suite_agg_custom!(frost_ristretto255::aggregate_custom);
 }
 impl Suite for frost_ed25519::Ed25519Sha512 {
